@@ -81,18 +81,18 @@ Fixpoint keep_full {A} (sl : list (option Z)) (l : list A) : list A :=
 
 (* [mdspan.sub.extents] with full_extent / index / (first, last) slices: an index drops the dimension,
    full_extent keeps extent and static-ness, a pair of run-time values keeps last - first elements with a
-   dynamic extent.  Precondition of the standard: 0 <= first <= last <= extent (index: 0 <= k < extent). *)
+   dynamic extent, a pair of integral constants the same with the static extent last - first.  Precondition of the standard: 0 <= first <= last <= extent (index: 0 <= k < extent). *)
 Definition slice_ok (s : slice) (x : Z) : Prop :=
   match s with
   | SlFull => True
   | SlIndex k => 0 <= k < x
-  | SlPair a b => 0 <= a /\ a <= b /\ b <= x
+  | SlPair a b | SlCPair a b => 0 <= a /\ a <= b /\ b <= x
   end.
 Fixpoint sub_shape (sl : list slice) (xs : list Z) : list Z :=
   match sl, xs with
   | SlFull :: sr, x :: r => x :: sub_shape sr r
   | SlIndex _ :: sr, _ :: r => sub_shape sr r
-  | SlPair a b :: sr, _ :: r => (b - a) :: sub_shape sr r
+  | SlPair a b :: sr, _ :: r | SlCPair a b :: sr, _ :: r => (b - a) :: sub_shape sr r
   | _, _ => []
   end.
 Fixpoint sub_pattern (sl : list slice) (p : list (option Z)) : list (option Z) :=
@@ -100,6 +100,7 @@ Fixpoint sub_pattern (sl : list slice) (p : list (option Z)) : list (option Z) :
   | SlFull :: sr, x :: r => x :: sub_pattern sr r
   | SlIndex _ :: sr, _ :: r => sub_pattern sr r
   | SlPair _ _ :: sr, _ :: r => None :: sub_pattern sr r
+  | SlCPair a b :: sr, _ :: r => Some (b - a) :: sub_pattern sr r     (* integral constants: static extent *)
   | _, _ => []
   end.
 
